@@ -14,7 +14,8 @@
 // wp objs:     mr (ForEach) mrdef (ForEach, default workers) mrmr (MapReduce) mrvoid (MapReduceVoid)
 //              mrchan (MapReduceChan) finish (Finish) finishvoid (FinishVoid)
 //              fx (Walk) fxp (Parallel) fxmap (Map) fxfilter (Filter) fxu (Walk, UnlimitedWorkers)
-//              fxdef (Walk, default workers); n is passed as is to WithWorkers (may be <= 0)
+//              fxdef (Walk, default workers); n is passed as is to WithWorkers (may be <= 0);
+//              items: 0 the user function returns, 1 panics, 2 (MapReduce family, Finish) cancels with an error
 // wg:          threading.NewWorkerGroup(job, n).Start(); items[k] = the k-th job invocation panics
 // ctor:        obj limit|tlimit|taskrunner|pool constructed with n (<= 0): R = 1 ok, 3 panicked
 // Results: 1 = nil/true/200, 0 = ErrLimitReturn/false/503/ErrTaskRunnerBusy, 2 = ErrTimeout,
@@ -482,8 +483,12 @@ func runWP(c Case, ctl *sched.Ctl, mon *monitor, wg *sync.WaitGroup) {
 			source <- i
 		}
 	}
+	errStop := fmt.Errorf("stop")
 	mapper := func(item int, w mr.Writer[int], cancel func(error)) {
 		fn(item)
+		if c.Items[item] == 2 {
+			cancel(errStop)
+		}
 		w.Write(item)
 	}
 	reducer := func(pipe <-chan int, w mr.Writer[int], cancel func(error)) {
@@ -511,14 +516,18 @@ func runWP(c Case, ctl *sched.Ctl, mon *monitor, wg *sync.WaitGroup) {
 			case "mrdef":
 				mr.ForEach(gen, func(item int) { fn(item) })
 			case "mrmr":
-				if _, err := mr.MapReduce(gen, mapper, reducer, mr.WithWorkers(c.N)); err != nil {
+				if _, err := mr.MapReduce(gen, mapper, reducer, mr.WithWorkers(c.N)); err == errStop {
+					r = 4
+				} else if err != nil {
 					r = -1
 				}
 			case "mrvoid":
 				if err := mr.MapReduceVoid(gen, mapper, func(pipe <-chan int, cancel func(error)) {
 					for range pipe {
 					}
-				}, mr.WithWorkers(c.N)); err != nil {
+				}, mr.WithWorkers(c.N)); err == errStop {
+					r = 4
+				} else if err != nil {
 					r = -1
 				}
 			case "mrchan":
@@ -527,16 +536,26 @@ func runWP(c Case, ctl *sched.Ctl, mon *monitor, wg *sync.WaitGroup) {
 					gen(src)
 					close(src)
 				}()
-				if _, err := mr.MapReduceChan(src, mapper, reducer, mr.WithWorkers(c.N)); err != nil {
+				if _, err := mr.MapReduceChan(src, mapper, reducer, mr.WithWorkers(c.N)); err == errStop {
+					r = 4
+				} else if err != nil {
 					r = -1
 				}
 			case "finish":
 				fns := make([]func() error, len(c.Items))
 				for i := range c.Items {
 					i := i
-					fns[i] = func() error { fn(i); return nil }
+					fns[i] = func() error {
+						fn(i)
+						if c.Items[i] == 2 {
+							return errStop
+						}
+						return nil
+					}
 				}
-				if err := mr.Finish(fns...); err != nil {
+				if err := mr.Finish(fns...); err == errStop {
+					r = 4
+				} else if err != nil {
 					r = -1
 				}
 			case "finishvoid":
